@@ -150,6 +150,17 @@ pub fn exec(case: &[i64]) -> Outcome {
             (d.and_then(|it| it.verify(&AcceptAll, &jwk)).is_ok(), some && pol && p.as_ref().map(|h| h.alg).unwrap_or(false))
           }
         }
+        8 => {
+          // two signatures: the first with b64 = fb (absent or false + crit), the second is (p, u)
+          let first = if fb { json!({"alg": "EdDSA"}) } else { json!({"alg": "EdDSA", "b64": false, "crit": ["b64"]}) };
+          let mut sig = Map::new();
+          sig.insert("signature".into(), json!("c2ln"));
+          if let Some(pb) = &pb { sig.insert("protected".into(), json!(pb)); }
+          if let Some(uj) = &uj { sig.insert("header".into(), uj.clone()); }
+          let tok = serde_json::to_vec(&json!({"payload": "aGk", "signatures": [{"protected": identity_jose::jwu::encode_b64(serde_json::to_vec(&first).unwrap()), "signature": "c2ln"}, Value::Object(sig)]})).unwrap();
+          let ok = match dec.decode_general_serialization(&tok, None) { Ok(mut it) => { let a = it.next(); let b = it.next(); matches!(a, Some(Ok(_))) && matches!(b, Some(Ok(_))) } Err(_) => false };
+          (ok, some && pol && eb64 == fb)
+        }
         _ => {
           let mut sig = Map::new();
           sig.insert("signature".into(), json!("c2ln"));
@@ -197,6 +208,8 @@ pub fn gen(rng: &mut Rng, thorough: bool, sink: &mut Sink) {
     sink.case(case(3, 0, p.as_ref(), u.as_ref()), "table-add-recipient-b64false");
     sink.case(case(6, 1, p.as_ref(), u.as_ref()), "table-dec-general");
     sink.case(case(7, 1, p.as_ref(), u.as_ref()), "table-verify");
+    sink.case(case(8, 1, p.as_ref(), u.as_ref()), "table-dec-general-two-b64true");
+    sink.case(case(8, 0, p.as_ref(), u.as_ref()), "table-dec-general-two-b64false");
   } }
   // registered names smuggled into the custom map (set_custom), every common field shared both ways
   for id in 0..14 { for e in 0..4 {
@@ -228,7 +241,7 @@ pub fn gen(rng: &mut Rng, thorough: bool, sink: &mut Sink) {
       Some(H { alg: rng.chance(2, 3), b64: *rng.pick(&[None, None, Some(true), Some(false)]), crit, common, custom })
     };
     let p = mk(rng); let u = mk(rng);
-    let e = rng.range(0, 7);
+    let e = rng.range(0, 8);
     if p.is_none() && (e == 0 || e == 5) { continue; }
     sink.case(case(e, rng.range(0, 1), p.as_ref(), u.as_ref()), "random");
   }
